@@ -360,7 +360,14 @@ def template_parts(expr, strip_str=True):
             return out
         if isinstance(e, ast.BinOp) and isinstance(e.op, ast.Add):
             a, b = go(e.left), go(e.right)
-            return None if a is None or b is None else a + b
+            if a is None and b is None:
+                return None
+            # `x + ".sig"`: concatenated with a string-building part, the other operand is a string value itself
+            if a is None:
+                a = [val(e.left)]
+            if b is None:
+                b = [val(e.right)]
+            return a + b
         if isinstance(e, ast.Call) and isinstance(e.func, ast.Attribute) and e.func.attr == "format" and isinstance(e.func.value, ast.Constant) \
                 and isinstance(e.func.value.value, str) and not any(isinstance(a, ast.Starred) for a in e.args) and all(k.arg for k in e.keywords):
             out, auto = [], 0
